@@ -150,6 +150,11 @@ Qed.
 Lemma bindS_NormS {R A B : Type} (a : A) (k : A -> SM R B) : bindS (NormS a) k = k a.
 Proof. reflexivity. Qed.
 
+(* a loop over a literal table of folders unfolds into nested sequences: (s1; s2); s3 is s1; (s2; s3) *)
+Lemma bindS_assoc {R A B C : Type} (m : SM R A) (k1 : A -> SM R B) (k2 : B -> SM R C) (fs : fsys) :
+  bindS (bindS m k1) k2 fs = bindS m (fun a => bindS (k1 a) k2) fs.
+Proof. unfold bindS. destruct (m fs) as [[a|r|e] fs']; reflexivity. Qed.
+
 (* the whole ruleset: every folder of the model emptied and rewritten, in the model's order, with the
    training encoding (Grammar and Prince: ASCII); [base] = count_base_structures after the Markov block *)
 Theorem save_pcfg_data_eq : forall (base : path) (P : pcounters) (sens : bool) (cov : num O) (n : N) (enc : str) (fs : fsys),
@@ -173,11 +178,12 @@ Proof.
   cbn [orb] in *. cbv iota in *.
   destruct sens; cbv iota in *;
   repeat (first [ rewrite (bindS_NormS)
+                | rewrite bindS_assoc
                 | rewrite save_step by
                     first [ repeat apply fs_install_wf; exact Hwf
                           | rewrite ?str_keys_klkeys;
                             first [exact E|exact E0|exact E1|exact E2|exact E3|exact E4|exact E5|exact E6|exact E7|exact E8|exact E9] ] ];
-          cbn [negb]);
+          cbn [negb for_eachS]);
   rewrite ?str_keys_klkeys; reflexivity.
 Qed.
 
@@ -217,11 +223,12 @@ Proof.
   destruct sens; cbv iota in He;
   repeat (first
     [ rewrite (bindS_NormS)
+    | rewrite bindS_assoc
     | match goal with
       | |- context [bindS (callS (py_save_indexed_counters repr encb calc ?f ?cl ?e)) ?k ?fs0] =>
           let Ht := fresh "Ht" in let Hs := fresh "Hs" in let fs' := fresh "fs" in
           destruct (save_step_cases f cl e fs0 k ltac:(repeat apply fs_install_wf; exact Hwf)) as [[Ht Hs]|[fs' Hs]];
-          rewrite Hs; cbn [negb]; [rewrite ?str_keys_klkeys in Ht | eexists; reflexivity]
+          rewrite Hs; cbn [negb for_eachS]; [rewrite ?str_keys_klkeys in Ht | eexists; reflexivity]
       end ]);
   exfalso;
   (match type of He with ?x = false => assert (Hall : x = true) end;
